@@ -150,14 +150,14 @@ EXPORT int _vsnwprintf_s_chk(wchar_t *restrict dest, rsize_t dmax,
     }
 
     if (unlikely(fmt == NULL)) {
-        *dest = L'\0';
+        if (dmax)
+            *dest = L'\0';
         invoke_safe_str_constraint_handler("vsnwprintf_s: fmt is null", NULL,
                                            ESNULLP);
         return -(ESNULLP);
     }
 
-    if (unlikely(dmax == 0)) {
-        *dest = L'\0';
+    if (unlikely(dmax == 0)) { /* dest has no element that could be written */
         invoke_safe_str_constraint_handler("vsnwprintf_s: dmax is 0", NULL,
                                            ESZEROL);
         return -(ESZEROL);
